@@ -29,7 +29,9 @@ def line_alphabet(LIB):
             # a comment line longer than any fixed look-back window, mentioning the library near its end
             b'# ' + b'x' * 3000 + b' libsnoopy.so',
             # own entry sharing its line with another (foreign) snoopy instance
-            LIB + b' /opt/other/libsnoopy.so']
+            LIB + b' /opt/other/libsnoopy.so',
+            # the path pasted twice without a separator: starts with the entry, but is a different (foreign) library path
+            LIB + LIB, LIB + LIB + b' # c']
 
 
 def files(LIB, maxlines, extra=True):
@@ -49,9 +51,9 @@ def files(LIB, maxlines, extra=True):
     return res
 
 
-def run_batch(ck, cli, hcli, lib, cases, tag):
-    """cases: list of (content|None, seq).  returns list of list of (rc, content|None, okflag)"""
-    n = 16
+def run_batch(ck, cli, hcli, lib, cases, tag, n=16):
+    """cases: list of (content|None, seq).  returns list of list of (rc, content|None, okflag).  Sequences that remove the library file
+    (x) must run with n=1: the library path is shared by all chunks."""
     size = (len(cases) + n - 1) // n
     chunks = [cases[i:i + size] for i in range(0, len(cases), size)]
 
